@@ -199,6 +199,8 @@ class GridSystem:
         for s in st["order"]:
             if getattr(st["objs"][s], "polytope", None) is not None:
                 ev.append({"op": "divide", "spec": s})
+                if st["objs"][s].dimensions == 3 and st["objs"][s].N <= 30:
+                    ev.append({"op": "divide", "spec": s, "times": 2})      # two subdivisions with no read in between
         return ev
 
     def terminal(self, st):
@@ -241,11 +243,25 @@ class GridSystem:
                 np.random.random()
             elif ev["op"] == "divide":
                 obj = st["objs"][ev["spec"]]
-                obj.polytope.divide_edges()
+                for _ in range(ev.get("times", 1)):
+                    obj.polytope.divide_edges()
                 if obj.dimensions == 3:
                     a = obj.polytope.get_nodes(N=obj.N, projection=True)
+                    # all nodes, asked after the first-N request: one row per node, starting with the first N
+                    alln = np.asarray(obj.polytope.get_nodes(projection=True))
+                    if len(alln) != obj.polytope.G.number_of_nodes() or not np.array_equal(alln[:obj.N], a) or \
+                            len(np.unique(np.round(alln, 9), axis=0)) != len(alln):
+                        vs.append(viol(f"C08|hist={hs}|divide_all_nodes", f"after a further subdivision of {ev['spec']} the complete "
+                                       "node array is not one row per node starting with the first N", case,
+                                       expected=obj.polytope.G.number_of_nodes(), observed=len(alln)))
                 else:
                     a = obj.polytope.get_half_of_hypercube(N=obj.N, projection=True)
+                    # a larger request after the N-limited one, at the same level: the complete half selection
+                    full = obj.polytope.get_half_of_hypercube(projection=True)
+                    if 2 * len(full) != obj.polytope.G.number_of_nodes() or not np.array_equal(full[:obj.N], a):
+                        vs.append(viol(f"C08|hist={hs}|divide_full_half", f"after a further subdivision of {ev['spec']} the complete "
+                                       "half selection (asked after the first-N one) is not half of the nodes / does not start "
+                                       "with the first N", case, expected=obj.polytope.G.number_of_nodes() // 2, observed=len(full)))
                 obs = sha(np.ascontiguousarray(a).tobytes(), a.shape)
                 want = self.table[ev["spec"]]["array"]
                 if obs != want:
@@ -270,7 +286,7 @@ def hstr(hist):
         elif e["op"] == "reseed":
             out.append(f"seed{e['k']}")
         elif e["op"] == "divide":
-            out.append(f"div:{e['spec']}")
+            out.append(f"div{'2' if e.get('times') == 2 else ''}:{e['spec']}")
         else:
             out.append("draw")
     return ">".join(out)
